@@ -60,6 +60,7 @@ type evalCtx struct {
 	old   *evalCtx
 	bound map[string]envVal
 	qn    *int
+	externCallee bool // evaluating clauses of an assumed (extern) callee contract
 }
 
 func (c *FnVC) newEval(fn *ssa.Function, env map[string]envVal, heap HeapState, old *evalCtx) *evalCtx {
@@ -241,6 +242,44 @@ func (ev *evalCtx) importsNamed(name string) []*types.Package {
 		}
 	}
 	return out
+}
+
+// deadAntecedent: some top-level conjunct of e is typeis(_, T) with T a qualified type name
+// whose package is not loaded.
+func (ev *evalCtx) deadAntecedent(e ast.Expr) bool {
+	for _, cj := range splitConj(e) {
+		call, ok := cj.(*ast.CallExpr)
+		if !ok || len(call.Args) != 2 {
+			continue
+		}
+		if id, ok := call.Fun.(*ast.Ident); !ok || id.Name != "typeis" {
+			continue
+		}
+		t := call.Args[1]
+		for {
+			if st, ok := t.(*ast.StarExpr); ok {
+				t = st.X
+				continue
+			}
+			if pe, ok := t.(*ast.ParenExpr); ok {
+				t = pe.X
+				continue
+			}
+			break
+		}
+		sel, ok := t.(*ast.SelectorExpr)
+		if !ok {
+			continue
+		}
+		pid, ok := sel.X.(*ast.Ident)
+		if !ok {
+			continue
+		}
+		if len(ev.importsNamed(pid.Name)) == 0 {
+			return true
+		}
+	}
+	return false
 }
 
 func (ev *evalCtx) lookupQualified(pkgName, name string) types.Object {
@@ -920,6 +959,12 @@ func (ev *evalCtx) call(x *ast.CallExpr, want types.Type) (string, types.Type, e
 	case "imp", "iff":
 		if err := argc(2); err != nil {
 			return "", nil, err
+		}
+		if id.Name == "imp" && ev.externCallee && ev.deadAntecedent(x.Args[0]) {
+			// a conjunct of the antecedent is typeis(x, T) for a type of a package that is not
+			// part of the analysed program: no value of that dynamic type exists, the
+			// implication holds trivially (T cannot even be named in the consequent)
+			return "true", boolT, nil
 		}
 		a, err := ev.boolExpr(x.Args[0])
 		if err != nil {
